@@ -365,12 +365,12 @@ theorem demo_census : programLabelDefs oN demoProg =
      ("M_ON_LOAD", false), ("M_ON_FRAME", false), ("Main_Text_0", false), ("T", true)] := by decide
 
 def demoLines : List Line := match emitProgram oN demoProg with | .ok ls => ls | .error _ => []
-theorem demo_emit : emitProgram oN demoProg = .ok demoLines := by decide
+theorem demo_emit : emitProgram oN demoProg = .ok demoLines := rfl
 
 /-- the output, rendered -/
 example : String.join (demoLines.map Line.render) =
     "Main::\n\tlock\n\tgoto Main_3\n\nMain_1:\nDone::\n\trelease\n\treturn\n\nMain_2:\n\tmsgbox Main_Text_0, MSGBOX_DEFAULT\nInner:\n\tgoto Main_1\n\nMain_3:\n\tgoto_if_set F, Main_2\n\tgoto Main_1\n\n\nx\n\nAux:\n\tapplymovement 2, Walk\n\treturn\n\n\nWalk:\n\twalk_up\n\tstep_end\n\n\t.align 2\nShop:\n\t.2byte ITEM_A\n\t.2byte ITEM_NONE\n\nM::\n\tmap_script ON_LOAD, M_ON_LOAD\n\tmap_script ON_RESUME, Elsewhere\n\tmap_script ON_FRAME, M_ON_FRAME\n\t.byte 0\n\nM_ON_LOAD:\n\tnop\n\treturn\n\nM_ON_FRAME:\n\tmap_script_2 VAR_X, 1, Aux\n\t.2byte 0\n\n\nMain_Text_0:\n\t.string \"hi$\"\n\nT::\n\t.string \"x$\"\n" := by
-  decide
+  rfl
 
 example : labelsOf demoLines = programLabelDefs oN demoProg := labels_of_program oN demoProg _ demo_emit
 
@@ -408,7 +408,7 @@ example := mapscript_refs_defined oN demoProg _ demo_emit demoMS (by simp [demoP
 
 /-- `inlineNamed_of_entries` on the parsed statement of C08b's example. -/
 example : InlineNamed C08b.exStmt :=
-  inlineNamed_of_entries C08b.exStmt C08b.exK C08b.exEntries (by decide) (by decide)
+  inlineNamed_of_entries C08b.exStmt C08b.exK C08b.exEntries rfl rfl
 
 /-- `patch_refs_defined` / `program_closed` on the parsed program of C06c's example (`C06c.exToks`). -/
 example : ∃ p, parseTokens {} C06c.exToks = .ok p ∧ ∀ o, ∀ q ∈ p.patches, q.2 ∈ programLabels o p := by
@@ -448,6 +448,7 @@ theorem imit_census : programLabels oN imit = ["A", "A_Text", "A_Text_1", "A_Tex
   decide
 theorem imit_duplicate : ¬ (programLabels oN imit).Nodup := by decide
 
+#eval programLabels oN imit
 #print axioms labels_of_program
 #print axioms program_labels_defined_once
 #print axioms nodup_of_parts
